@@ -30,6 +30,9 @@ def payload_class(pl):
         return 'all-ff'
     if all(b == 0 for b in pl):
         return 'all-00'
+    if pl.count(0x11) >= len(pl) - 4 and len(pl) >= 8:
+        core = bytes(b for b in pl if b != 0x11)
+        return f'contains-{core.hex()}'
     return 'mixed'
 
 
@@ -125,7 +128,7 @@ def job(j):
 
 def run_k(framing, c, fill, trail, ka, host=None):
     world.reset()
-    pl = (bytes([fill]) * (2 * c)) if fill is not None else bytes((i * 13 + 5) & 0xFF for i in range(2 * c))
+    pl = fill if isinstance(fill, bytes) else (bytes([fill]) * (2 * c)) if fill is not None else bytes((i * 13 + 5) & 0xFF for i in range(2 * c))
 
     def plan(k, req, now):
         if framing == 'tcp':
@@ -336,6 +339,15 @@ def k_cases(tier):
                 for trail in ((b'', b'\x00', b'\x00\x01', bytes(7)) if framing == 'rtu' else (b'',)):
                     for ka in (False, True):
                         yield framing, c, fill, trail, ka
+    # payloads that contain the byte strings the transports and validators look for (frame magic, unit + function,
+    # exception function, MBAP zeros) at every position of an otherwise quiet payload
+    for framing in ('rtu', 'tcp', 'aa55'):
+        for magic in (b'\xaa\x55', b'\xaa\x55\xf7\x03', b'\xaa\x55\x7f\xc0', b'\xf7\x03', b'\xf7\x83\x02', b'\x00\x00\x00\x06', b'\x01\x86'):
+            for c in (4, 61):
+                for pos in (range(0, 2 * c - len(magic) + 1) if c == 4 else (0, 57, 2 * c - len(magic))):
+                    pl = bytearray(b'\x11' * (2 * c))
+                    pl[pos:pos + len(magic)] = magic
+                    yield framing, c, bytes(pl), b'', pos % 2 == 0
 
 
 def run(tier, seed, rep):
@@ -475,5 +487,6 @@ def replay(r):
         o = accept(cmd, bytes.fromhex(r['data']))
         return dict(outcome=o, violations=[] if o == 'accept' else [('conforming frame refused', o)])
     c = r['case']
-    vio, res = run_k(c[0], c[1], c[2], bytes.fromhex(c[3]), c[4], host=r.get('host'))
+    fill = bytes.fromhex(c[2]['hex']) if isinstance(c[2], dict) else c[2]      # (an explicit payload)
+    vio, res = run_k(c[0], c[1], fill, bytes.fromhex(c[3]), c[4], host=r.get('host'))
     return dict(result=[x.hex() if isinstance(x, bytes) else x for x in res], violations=vio)
